@@ -256,3 +256,29 @@ def atoms_expanded(node, stop=None, depth=3):
     for t, pol in guards(node, stop):
         add(t if pol else canon.neg(t), t, depth)
     return out
+
+
+def helpers_of(mod, fn, depth=2):
+    """fn and the functions of the same module it calls (by plain name, or as self.m / cls.m / Class.m), transitively
+    to `depth`: the scope in which a rule looks for a step that may have been moved into a helper."""
+    out, todo = [fn], [(fn, 0)]
+    while todo:
+        f, d = todo.pop()
+        if d >= depth:
+            continue
+        q = mod.qual_of(f)
+        cls = q.rsplit(".", 1)[0] if "." in q else None
+        for c in calls(f):
+            h = None
+            if isinstance(c.func, ast.Name):
+                h = mod.func(c.func.id) or (mod.func(f"{q}.{c.func.id}"))
+            elif isinstance(c.func, ast.Attribute) and isinstance(c.func.value, ast.Name):
+                base = c.func.value.id
+                if base in ("self", "cls") and cls:
+                    h = mod.func(f"{cls}.{c.func.attr}")
+                else:
+                    h = mod.func(f"{base}.{c.func.attr}")
+            if h is not None and not any(h is x for x in out):
+                out.append(h)
+                todo.append((h, d + 1))
+    return out
